@@ -97,7 +97,10 @@ impl<'a> ResourceRecordManager<'a> {
         )|
          -> Option<&ResourceRecord> {
             let (resource, resource_type) = resource_pair;
-            if filter.match_filter(resource_type) {
+            // keys are built from a lossy rendering of the labels, the name itself decides
+            let name_matches = resource.name == *name
+                || (filter.subdomain && resource.name.is_subdomain_of(name));
+            if name_matches && filter.match_filter(resource_type) {
                 Some(resource)
             } else {
                 None
@@ -210,10 +213,14 @@ impl DomainResourceFilter {
 }
 
 fn get_key(name: &Name) -> Vec<u8> {
+    // every label is prefixed with its length, so that the key of `foo.bar` differs from the key of
+    // `foobar` and a key can only be a prefix of the keys of its subdomains
     name.get_labels()
         .iter()
         .rev()
-        .flat_map(|label| label.to_string().into_bytes())
+        .flat_map(|label| {
+            std::iter::once(label.len() as u8).chain(label.to_string().into_bytes())
+        })
         .collect()
 }
 
